@@ -50,6 +50,9 @@ CHECKS = {
  "C19": dict(cat="exploration", technique="differential runtime oracle: independent arithmetic on generated instance-type vectors vs the real limit provider -> checkInstance/getPoolConfig and controller ReconcileNode -> daemon-side nodeReconcile -> controller (annotations, allocatable) on the simulated API server",
      text="Instance-type vectors and configurations are generated; the real LimitProviders[ecs] (GetLimit over a simulated DescribeInstanceTypes, and GetLimitFromAnno), daemon checkInstance/getPoolConfig, controller node.ReconcileNode and the daemon-side Node-CR reconciler are run in their production order; every advertised number (MaxENI, per-ENI addresses, capacity, watermarks, member ENIs, RDMA capacity, flavor counts, max-available-ip, allocatable eni/member-eni) is compared with the independently computed instance limits, and features the type lacks must be reported disabled.",
      note="Default ratio 1 / shift 0, non-negative sizes. The daemon-side ERDMA flavor is not exercised (enabling it starts the kubelet device plugin, which exits the process in this sandbox).", ref="§2 C19"),
+ "C18": dict(cat="exploration", technique="runtime oracle on admission responses of the real mutating webhook: scenario-known verdicts + structural invariants on the pod obtained by applying the response patch to the submitted bytes",
+     text="Ten admission scenarios (host network, ignored label, unmatched, PodNetworking matched by pod / namespace selector, explicit network list, network requests, conflicting annotations, fixed IP without stable name, pod-eni flag) are generated over pods, PodNetworking sets, namespaces and cluster configuration; pods terway does not own must be admitted without patch, invalid ones denied, and every pod marked for a dedicated ENI must carry a parseable network list with unique 1..5 character interfaces, vSwitches, <=10 security groups, an allocation type, a device request equal to the number of networks under the right resource name, and a zone affinity inside the zones common to all requested networks.",
+     note="API server simulated; pods are generated without pre-existing affinity. One known finding (non-eth0 entries are not defaulted) is listed in known_findings.json.", ref="§2 C18"),
 }
 NOT_YET = {}
 
